@@ -48,6 +48,49 @@ def oracle_fn(ctx, item, s):
     return fails
 
 
+def build_alg(A, added):
+    """A built by the constructor, B = A + T1 + T2 ... by the typeset algebra (A is the left operand and is used afterwards)"""
+    import visions
+    tsA = streams.typeset_from_names(A)
+    tsB = tsA
+    with warnings.catch_warnings():
+        warnings.simplefilter("ignore")
+        for t in added:
+            tsB = tsB + getattr(visions.types, t)
+    return tsA, tsB
+
+
+def build_algsub(B, removed):
+    """B built by the constructor, A = B - T1 - T2 ... by the typeset algebra"""
+    import visions
+    tsB = streams.typeset_from_names(B)
+    tsA = tsB
+    with warnings.catch_warnings():
+        warnings.simplefilter("ignore")
+        for t in removed:
+            tsA = tsA - getattr(visions.types, t)
+    return tsA, tsB
+
+
+def alg_pairs(rnd, n):
+    par = streams.identity_parent()
+    out = []
+    for k in range(n):
+        B = streams.random_closed_subset(rnd, par) if k else sorted({t.__name__ for t in streams.shipped_typesets()["CompleteSet"].types})
+        A = streams.random_closed_subset(rnd, par, universe=B) if k else sorted({t.__name__ for t in streams.shipped_typesets()["StandardSet"].types})
+        extra = [t for t in B if t not in A]
+        if len(A) < 2 or not extra:
+            continue
+        # add parents before children so that every intermediate typeset is parent-closed
+        depth = lambda t: 0 if par.get(t) is None else 1 + depth(par[t])  # noqa
+        extra.sort(key=depth)
+        tsA, tsB = build_alg(A, extra)
+        out.append(("alg:" + ",".join(A), "alg:" + ",".join(A) + "|+|" + ",".join(extra), tsA, tsB, set(A)))
+        tsA2, tsB2 = build_algsub(B, extra[::-1])
+        out.append(("algsub:" + ",".join(A), "algsub:" + ",".join(B) + "|-|" + ",".join(extra[::-1]), tsA2, tsB2, set(A)))
+    return out
+
+
 def make_pairs(rnd, n):
     par = streams.identity_parent()
     sh = streams.shipped_typesets()
@@ -61,7 +104,7 @@ def make_pairs(rnd, n):
         if len(A) < 2 or A == B:
             continue
         pairs.append(("sub:" + ",".join(A), "sub:" + ",".join(B), streams.typeset_from_names(A), streams.typeset_from_names(B), set(A)))
-    return pairs
+    return pairs[:3] + alg_pairs(rnd, max(2, n // 3)) + pairs[3:]
 
 
 def replay(path):
@@ -71,8 +114,15 @@ def replay(path):
         return 1
     s = streams.materialise({"recipe": r["recipe"]})
     B = r["B"]
-    tsB = streams.typeset_from_names(B[4:].split(",")) if B.startswith("sub:") else streams.shipped_typesets()[B]
-    tsA = streams.typeset_from_names(r["A"])
+    if B.startswith("alg:"):
+        a, add = B[4:].split("|+|")
+        tsA, tsB = build_alg(a.split(","), add.split(","))
+    elif B.startswith("algsub:"):
+        b, rem = B[7:].split("|-|")
+        tsA, tsB = build_algsub(b.split(","), rem.split(","))
+    else:
+        tsB = streams.typeset_from_names(B[4:].split(",")) if B.startswith("sub:") else streams.shipped_typesets()[B]
+        tsA = streams.typeset_from_names(r["A"])
     with warnings.catch_warnings():
         warnings.simplefilter("ignore")
         f = check_pair(tsA, tsB, set(r["A"]), s, ("A", B))
@@ -111,6 +161,13 @@ def replay_entry(e):
         return True
     s = streams.materialise({"recipe": r["recipe"]})
     B = r["B"]
-    tsB = streams.typeset_from_names(B[4:].split(",")) if B.startswith("sub:") else streams.shipped_typesets()[B]
-    tsA = streams.typeset_from_names(r["A"])
+    if B.startswith("alg:"):
+        a, add = B[4:].split("|+|")
+        tsA, tsB = build_alg(a.split(","), add.split(","))
+    elif B.startswith("algsub:"):
+        b, rem = B[7:].split("|-|")
+        tsA, tsB = build_algsub(b.split(","), rem.split(","))
+    else:
+        tsB = streams.typeset_from_names(B[4:].split(",")) if B.startswith("sub:") else streams.shipped_typesets()[B]
+        tsA = streams.typeset_from_names(r["A"])
     return check_pair(tsA, tsB, set(r["A"]), s, ("A", B))
